@@ -3383,6 +3383,14 @@ sexp sexp_list_to_uvector_op(sexp ctx, sexp self, sexp_sint_t n, sexp etype, sex
 
 sexp sexp_read_one (sexp ctx, sexp in, sexp *shares);
 
+/* the datum that has to follow a prefix such as ' or #n= */
+static sexp sexp_read_prefixed (sexp ctx, sexp in, sexp *shares) {
+  sexp res = sexp_read_one(ctx, in, shares);
+  if (res == SEXP_EOF)
+    res = sexp_read_incomplete_error(ctx, "end of input after datum prefix", SEXP_NULL, in);
+  return res;
+}
+
 sexp sexp_read_raw (sexp ctx, sexp in, sexp *shares) {
   char *str;
   int c1, c2, line;
@@ -3409,23 +3417,23 @@ sexp sexp_read_raw (sexp ctx, sexp in, sexp *shares) {
   case '\r':
     goto scan_loop;
   case '\'':
-    res = sexp_read_one(ctx, in, shares);
+    res = sexp_read_prefixed(ctx, in, shares);
     if (! sexp_exceptionp(res))
       res = sexp_list2(ctx, sexp_global(ctx, SEXP_G_QUOTE_SYMBOL), res);
     break;
   case '`':
-    res = sexp_read_one(ctx, in, shares);
+    res = sexp_read_prefixed(ctx, in, shares);
     if (! sexp_exceptionp(res))
       res = sexp_list2(ctx, sexp_global(ctx, SEXP_G_QUASIQUOTE_SYMBOL), res);
     break;
   case ',':
     if ((c1 = sexp_read_char(ctx, in)) == '@') {
-      res = sexp_read_one(ctx, in, shares);
+      res = sexp_read_prefixed(ctx, in, shares);
       if (! sexp_exceptionp(res))
         res = sexp_list2(ctx, sexp_global(ctx, SEXP_G_UNQUOTE_SPLICING_SYMBOL), res);
     } else {
       sexp_push_char(ctx, c1, in);
-      res = sexp_read_one(ctx, in, shares);
+      res = sexp_read_prefixed(ctx, in, shares);
       if (! sexp_exceptionp(res))
         res = sexp_list2(ctx, sexp_global(ctx, SEXP_G_UNQUOTE_SYMBOL), res);
     }
@@ -3661,7 +3669,7 @@ sexp sexp_read_raw (sexp ctx, sexp in, sexp *shares) {
           sexp_vector_data(*shares)[c2] = sexp_make_reader_label(c2);
           if (tmp > sexp_vector_data(*shares)[sexp_vector_length(*shares)-1])
             sexp_vector_data(*shares)[sexp_vector_length(*shares)-1] = tmp;
-          res = sexp_read_one(ctx, in, shares);
+          res = sexp_read_prefixed(ctx, in, shares);
           sexp_vector_data(*shares)[c2] = res;
           if (sexp_reader_labelp(res))
             res = sexp_read_error(ctx, "self reader label reference", tmp, in);
@@ -3780,23 +3788,23 @@ sexp sexp_read_raw (sexp ctx, sexp in, sexp *shares) {
       }
       break;
     case '\'':
-      res = sexp_read_one(ctx, in, shares);
+      res = sexp_read_prefixed(ctx, in, shares);
       if (! sexp_exceptionp(res))
 	res = sexp_list2(ctx, sexp_global(ctx, SEXP_G_SYNTAX_SYMBOL), res);
       break;
     case '`':
-      res = sexp_read_one(ctx, in, shares);
+      res = sexp_read_prefixed(ctx, in, shares);
       if (! sexp_exceptionp(res))
 	res = sexp_list2(ctx, sexp_global(ctx, SEXP_G_QUASISYNTAX_SYMBOL), res);
       break;
     case ',':
       if ((c1 = sexp_read_char(ctx, in)) == '@') {
-	res = sexp_read_one(ctx, in, shares);
+	res = sexp_read_prefixed(ctx, in, shares);
 	if (! sexp_exceptionp(res))
 	  res = sexp_list2(ctx, sexp_global(ctx, SEXP_G_UNSYNTAX_SPLICING_SYMBOL), res);
       } else {
 	sexp_push_char(ctx, c1, in);
-	res = sexp_read_one(ctx, in, shares);
+	res = sexp_read_prefixed(ctx, in, shares);
 	if (! sexp_exceptionp(res))
 	  res = sexp_list2(ctx, sexp_global(ctx, SEXP_G_UNSYNTAX_SYMBOL), res);
       }
